@@ -21,6 +21,7 @@ From RV Require Import Proofs.Morphology.
 From RV Require Import Proofs.FilterGeom.
 From RV Require Import Model.SrgbSpec.
 From RV Require Import Proofs.SrgbSpec.
+From RV Require Import Proofs.PixelArith.
 From Flocq Require Import Core BinarySingleNaN.
 Local Open Scope Z_scope.
 
@@ -53,6 +54,14 @@ Theorem C16_turbulence_valid : forall noise, (forall q, byte_px q -> byte_px (no
   valid_px (run_steps noise apply_turbulence_steps p).
 Proof. exact turbulence_valid. Qed.
 Print Assumptions C16_turbulence_valid.
+
+(* feComposite arithmetic: any coefficients (infinite ones included), any two input pixels, as long as the alpha
+   computation itself is not NaN (that needs a non-finite coefficient); proved by monotonicity of binary32 rounding *)
+Theorem C16_arithmetic_valid : forall k1 k2 k3 k4 p1 p2,
+  is_nan (ar_result k1 k2 k3 k4 (ar_norm (pa p1)) (ar_norm (pa p2))) = false ->
+  valid_px (px_arithmetic k1 k2 k3 k4 p1 p2).
+Proof. exact arithmetic_valid. Qed.
+Print Assumptions C16_arithmetic_valid.
 
 (* any operator, radius, image size and content *)
 Theorem C16_morphology_valid : forall op crx cry w h data, Forall valid_px data ->
